@@ -110,6 +110,19 @@ def run_shard(check: Check, tier: str, seed: int, shard: int, nshards: int, out:
     st_fail = check.selftest() if shard == 0 else []
     res["selftest_failures"] = st_fail
     n = 0
+    import signal
+
+    class CaseTimeout(Exception):
+        pass
+
+    def _alarm(signum: int, frame: Any) -> None:
+        raise CaseTimeout("case exceeded its wall-clock limit")
+
+    case_limit = float(os.environ.get("VERIF_CASE_LIMIT", "0")) or max(60.0, budget)
+    try:
+        signal.signal(signal.SIGALRM, _alarm)
+    except ValueError:
+        pass
     try:
         for spec in check.cases(rng, tier, shard, nshards):
             if n >= per_shard:
@@ -119,7 +132,11 @@ def run_shard(check: Check, tier: str, seed: int, shard: int, nshards: int, out:
                 break
             n += 1
             try:
-                cr = check.run_case(spec)
+                signal.setitimer(signal.ITIMER_REAL, case_limit)
+                try:
+                    cr = check.run_case(spec)
+                finally:
+                    signal.setitimer(signal.ITIMER_REAL, 0)
             except BaseException as exc:  # noqa: BLE001  harness failure => inconclusive
                 if isinstance(exc, KeyboardInterrupt):
                     raise
